@@ -63,3 +63,23 @@ Theorem C01_disconnected_user_is_no_member :
     (forall (hd : str) (ch : chan),
      alookup hd (chans s') = Some ch -> nmem n (ch_members ch) = false).
 Proof. exact hangup_last_connection_cleans_up. Qed.
+
+(* ---- outbound frames that do not fit the message buffer (Model/ServerX.v; types pasted from Proofs/ServerXProofs.v) ---- *)
+From NW Require Import Model.ServerX Proofs.ServerXProofs.
+
+Theorem C01_oversize_settling_invents_no_frame :
+  forall (cfg : scfg) (vs : list N) (os : list out) (o : out),
+    In o (deliver cfg vs os) ->
+    In o os /\ match o with
+               | OSend _ _ _ => False
+               | _ => True
+               end \/
+    (exists (h : N) (m : SchemaTypes.msg) (p : option (list N)),
+       In (OSend h m p) os /\ existsb (N.eqb h) vs = false /\ o = shrink_reply cfg (OSend h m p)).
+Proof. exact deliver_sound. Qed.
+
+Theorem C01_oversize_settling_invents_no_payload :
+  forall (cfg : scfg) (vs : list N) (os : list out) (h : N) (m : SchemaTypes.msg) (q : list N),
+    In (OSend h m (Some q)) (deliver cfg vs os) ->
+    exists m0 : SchemaTypes.msg, In (OSend h m0 (Some q)) os.
+Proof. exact deliver_payloads. Qed.
